@@ -362,7 +362,10 @@ impl<H: Hal, const SIZE: usize> VirtQueue<H, SIZE> {
             // SAFETY: `self.used` points to a valid, aligned, initialised, dereferenceable, readable
             // instance of `UsedRing`.
             let avail_event = unsafe { (*self.used.as_ptr()).avail_event.load(Ordering::Acquire) };
-            self.avail_idx >= avail_event.wrapping_add(1)
+            // `avail_idx` and `avail_event` are free-running indices which wrap around, so compare the
+            // distance between them rather than their raw values: the device wants a notification
+            // if the entry it asked about is among the (at most `SIZE`) entries made available.
+            self.avail_idx.wrapping_sub(avail_event).wrapping_sub(1) < SIZE as u16
         } else {
             // SAFETY: `self.used` points to a valid, aligned, initialised, dereferenceable, readable
             // instance of `UsedRing`.
